@@ -7,20 +7,21 @@ CONFIG = {
                     ["OasisProofs/Helpers/Roothash%s.lean" % n for n in ("Process", "Rank", "Count", "Sound", "Inv", "Final", "Order")],
     "drivers": [
         {"name": "pooldrv",
-         "quick": ["-cases", "2500", "-ops", "30", "-exhaustive", "3", "-exhaustive-limit", "40000", "-multiset", "4"],
-         "thorough": ["-cases", "60000", "-ops", "40", "-exhaustive", "6", "-exhaustive-limit", "1100000", "-multiset", "5"],
+         "quick": ["-cases", "2500", "-ops", "30", "-exhaustive", "3", "-exhaustive-limit", "40000", "-multiset", "4", "-multiset-app", "4"],
+         "thorough": ["-cases", "50000", "-ops", "40", "-exhaustive", "6", "-exhaustive-limit", "1100000", "-multiset", "5", "-multiset-app", "4"],
          "timeout_thorough": 6000},
     ],
     "trusted_base": [
         "Lean 4.33 kernel (axioms per theorem listed under coverage.axioms; at most propext, Classical.choice, Quot.sound)",
         "the model OasisModel/Roothash/Pool.lean mirrors pool.go:224-452, votes.go, scheduler/api/api.go:155-262 and finalization.go:81-139; it is tied to the Go code by the pooldrv correspondence (result, chosen commitment and full serialized pool state compared after every step)",
-        "harness/cmd/pooldrv, harness/hlib (generators, numbering of keys and header hashes, line protocol), the verif-tagged hook go/consensus/cometbft/apps/roothash/export_verif.go (exports tryFinalizeRoundInsideTx)",
+        "harness/cmd/pooldrv, harness/hlib (generators, numbering of keys and header hashes, line protocol), the verif-tagged hook go/consensus/cometbft/apps/roothash/export_verif.go (exports tryFinalizeRoundInsideTx and executorCommit)",
         "Ed25519 signatures, CBOR and hashing are the real Go code in the harness; the model consumes only (node, scheduler, round, vote-hash number, failure flag), i.e. header hashes are assumed collision-free on the generated headers (the harness numbers distinct hashes distinctly)",
     ],
     "assumptions": [
         "rule theorems are stated for histories admitted through VerifyExecutorCommitment (correct round, a scheduler never submits a failure) and for rounds with round + |committee| < 2^64 (uint64 `round + idx` in SchedulerRank does not wrap); the wrap-around counterexample is recorded in Props/C11.lean",
         "the committee, the round and the runtime are fixed during a round (the pool is reset on every block and epoch transition)",
         "RAK attestation and runtime messages in VerifyExecutorCommitment are outside the model (non-TEE runtime, no messages)",
+        "pointer aliasing is outside the Lean model (commitments are values there, *ExecutorCommitment in Go): that the commitment stored at HighestRank stays byte-identical to what the chosen scheduler signed and that a Normal block carries exactly its header roots is checked model-free by pooldrv on the real executorCommit handler (transactions of 1-6 commitments, scheduler's proposal first / middle / last) and the real tryFinalizeRoundInsideTx (hook VerifExecutorCommit / VerifTryFinalizeRound); signature finalized-header-not-schedulers-commitment",
         "the `finalize` op calls the real tryFinalizeRoundInsideTx (hook go/consensus/cometbft/apps/roothash/export_verif.go) on a RuntimeState holding the real pool inside a mock EndBlock context (no registered nodes, no incoming messages, no slashing configured); the block it emits is compared with the model outcome (Normal with the roots of the chosen commitment / RoundFailed with the previous state root / none)",
     ],
     "explanation": "Theorems about the code-shaped pool model vs. the independent rule; correspondence + rule evaluation on the real commitment.Pool over generated and exhaustively enumerated histories.",
